@@ -2,7 +2,7 @@
 # usage: seed_matrix.sh [names...]   runs every stored seeded change against its own property's quick check and C01; writes seeded/MATRIX.txt
 cd /verif
 names="$@"
-[ -z "$names" ] && names=$(ls seeded | grep -v MATRIX)
+[ -z "$names" ] && names=$(ls seeded | grep -v MATRIX | grep -v "^NA_")
 for n in $names; do
   p=$(echo $n | cut -d_ -f1)
   extra=$(python3 -c "import json;print(' '.join(json.load(open('/verif/seeded/$n/meta.json')).get('also_run',[])))" 2>/dev/null)
